@@ -700,7 +700,33 @@ class FuncLowerer:
             out = [pad + 'default:']
             out += self.stmt(s['inner'][0], ind + 1)
             return out
-        if k in ('GotoStmt', 'LabelStmt', 'CXXTryStmt', 'CXXForRangeStmt', 'CoreturnStmt', 'CXXThrowExpr', 'AttributedStmt'):
+        if k == 'CXXForRangeStmt':
+            # clang has already desugared it: [init] __range, __begin, __end, cond, inc, loop variable, body
+            inner = [x for x in s.get('inner', [])]
+            if len(inner) != 8:
+                abort('range-for shape (%d children)' % len(inner), s)
+            init, rng, beg, end, cond, inc, var, body = inner
+            out = [pad + '{']
+            for d in (init, rng, beg, end):
+                if d and d.get('kind'):
+                    out += self.stmt(d, ind + 1)
+            self.loop_ord += 1
+            lc = self.loop_contract()
+            out.append('%s  for (; %s; %s)' % (pad, self.cond(cond), self.expr(inc)))
+            out += lc
+            out.append(pad + '  {')
+            self.scope_exits.append([])
+            out += self.stmt(var, ind + 2)
+            if body.get('kind') == 'CompoundStmt':
+                for c in body.get('inner', []):
+                    out += self.stmt(c, ind + 2)
+            else:
+                out += self.stmt(body, ind + 2)
+            out += [pad + '    ' + x for x in self.scope_exits.pop()]
+            out.append(pad + '  }')
+            out.append(pad + '}')
+            return out
+        if k in ('GotoStmt', 'LabelStmt', 'CXXTryStmt', 'CoreturnStmt', 'CXXThrowExpr', 'AttributedStmt'):
             if k == 'AttributedStmt':
                 return self.stmt(s['inner'][-1], ind)
             abort('statement kind not in the accepted subset: %s' % k, s)
